@@ -274,7 +274,8 @@ def run(ctx):
     conts = [n for n in cfg.stmt_nodes() if n.kind == "stmt" and False]
     n_cont = sum(1 for n in ast.walk(loop) if isinstance(n, ast.Continue) and not any(
         isinstance(a, ast.For) and a is not loop and any(x is n for x in ast.walk(a)) for a in ast.walk(loop)))
-    r.idiom("R15.2", n_cont == 1 and "yield {'type': 'EndTag', 'name': 'head'} meta_found = True continue" in src, "continue-only-after-replacement",
+    import re as _re
+    r.idiom("R15.2", n_cont == 1 and _re.search(r"yield \{'type': 'EndTag', 'name': 'head'[^}]*\} meta_found = True continue", src) is not None, "continue-only-after-replacement",
             f.where, "a `continue` skips the buffer-or-yield step other than after replacing an empty head (%d)" % n_cont)
     init = repo.func(REL, "Filter.__init__")
     r.check("R15.2", any(norm(s) == "self.encoding = encoding" for s in init.node.body), "encoding-stored", init.where, "the filter does not keep the requested encoding")
@@ -316,6 +317,24 @@ def run(ctx):
     r.rule("R14.5", "every named reference the encoder emits decodes back to the same character; form is &name; or &#x..;", floor=1000)
     c14.reverse_map(ctx, ce.const("constants.py", "entities"))
     codec_agreement(ctx)
+    # R15.9: the tokens the filter makes up itself (the re-built <head> / </head> and the injected <meta>) have the shape of the
+    # tokens a tree walker emits -- in particular a "namespace" entry; the filters that run after it (sanitizer, Lint) index it
+    r.rule("R15.9", "tokens created by the injection filter carry a namespace like every walker token", floor=2)
+    made = [d for d in ast.walk(f.node) if isinstance(d, ast.Dict) and any(isinstance(k, ast.Constant) and k.value == "type" for k in d.keys)
+            and any(isinstance(k, ast.Constant) and k.value == "name" for k in d.keys)]
+    for h in f.module.all_functions:
+        if h.name != "__iter__" and h.cls is None:
+            made += [d for d in ast.walk(h.node) if isinstance(d, ast.Dict) and any(isinstance(k, ast.Constant) and k.value == "type" for k in d.keys)
+                     and any(isinstance(k, ast.Constant) and k.value == "name" for k in d.keys)]
+    if not made:
+        r.idiom("R15.9", False, "made-up-tokens-have-namespace", f.where, "the tokens the filter creates were not found")
+    for d in made:
+        keys = {k.value for k in d.keys if isinstance(k, ast.Constant)}
+        ty = next((norm(v) for k, v in zip(d.keys, d.values) if isinstance(k, ast.Constant) and k.value == "type"), "?")
+        r.check("R15.9", "namespace" in keys, "made-up-tokens-have-namespace::%s@%d" % (ty.strip("'"), made.index(d)), "%s:%d" % (REL, d.lineno),
+                "the filter yields a %s token without a \"namespace\" entry: every token of a tree walker has one and the filters after it rely "
+                "on it -- HTMLSerializer(sanitize=True).render(walker(parse('<p>x')), 'koi8-r') raises KeyError: 'namespace' (and Lint "
+                "rejects the stream)" % ty, detail={"keys": sorted(keys)})
 
 
 def thorough(ctx):
@@ -327,6 +346,7 @@ def mutants():
     from ..selftest import TextMutant as T
     S = "serializer.py"
     return [
+        T("injected-meta-without-namespace", REL, "                        yield {\"type\": \"EmptyTag\", \"name\": \"meta\",\n                               \"namespace\": token.get(\"namespace\"),\n", "                        yield {\"type\": \"EmptyTag\", \"name\": \"meta\",\n", "R15.9"),
         T("pragma-substitute", REL, "                            token[\"data\"][(None, \"content\")] = 'text/html; charset=%s' % self.encoding", "                            token[\"data\"][(None, \"content\")] = token[\"data\"][(None, \"content\")].replace(\"charset=x\", 'charset=%s' % self.encoding)", "R15.2"),
         T("flag-never-reset", REL, "                    # replace charset with actual encoding\n                    has_http_equiv_content_type = False\n",
           "                    # replace charset with actual encoding\n", "R15.2"),
